@@ -182,8 +182,27 @@ def roundtrip(g, st, recs, lib, ev):
         out.append(e)
         segs.append(seg)
     if out and all(s is not None for s in segs):
+        # the shape in which the fragment reaches the tagger: complete pair, one call per mate with the other slot None
+        # ([R1, None] then [None, R2]), R2 listed first, the same fragment digested twice (already tagged reads are left
+        # alone), single-end [R1] / [R1, None]. Every present read must end up decoded.
+        shapes = ['pair', 'split', 'r2_first', 'twice', 'split'] if len(segs) == 2 else ['single', 'single_none', 'twice']
+        shape = shapes[base['tid'] % len(shapes)]
+        for e in out:
+            e['shape'] = shape
         try:
-            QueryNameFlagger().digest(segs)
+            fl = QueryNameFlagger()
+            if shape == 'split':
+                fl.digest([segs[0], None])
+                fl.digest([None, segs[1]])
+            elif shape == 'r2_first':
+                fl.digest([segs[1], segs[0]])
+            elif shape == 'single_none':
+                fl.digest([segs[0], None])
+            elif shape == 'twice':
+                fl.digest(list(segs))
+                fl.digest(list(segs))
+            else:
+                fl.digest(list(segs))
             for e, s in zip(out, segs):
                 e['bt'] = [[k, codes(v)] for k, v in s.get_tags()]
                 e['qname'] = codes(s.query_name)
@@ -244,7 +263,7 @@ def main():
                 'in': {k: codes(v) for k, v in fld.items()}, 'ly': codes(lib),
                 'umi_in': codes(umi) if umi is not None else [], 'umiq_in': codes(umiq) if umiq is not None else [],
                 'umi_known': umi is not None, 'raised': '', 'refused': False, 'stored': False, 'digested': False,
-                'digest_raised': '', 'dt': [], 'dt_types': [], 'header': [], 'bt': [], 'qname': []}
+                'digest_raised': '', 'dt': [], 'dt_types': [], 'header': [], 'bt': [], 'qname': [], 'shape': ''}
 
     # (1) the two quality-code functions on all 94 phred characters
     for c in range(33, 127):
